@@ -101,7 +101,7 @@ def run(ctx):
   ctx.expect("R-C12-TEMPLATE", 3, "border test, default set, validation")
   ctx.expect("R-C12-LADDER", 4, "loop condition, guard agreement, matrix shape, block-frequency ladder")
   ctx.expect("R-C12-PURE", 56, "every function of the five modules behind the statistical tests")
-  ctx.expect("R-C12-FORMULA", 17, "statistic formulas of ten tests, compared at their sinks")
+  ctx.expect("R-C12-FORMULA", 20, "statistic formulas of ten tests, compared at their sinks")
   ctx.expect("R-C12-TABLES", 60, "17 longest-run + 6 + 33 rank + universal + 11 min_n + 14 linear complexity + 3 excursions")
   ctx.expect("R-C12-MINSIZE", 10, "nine InsufficientDataError guards + the 500-cycle gate of the excursion tests")
   ctx.expect("R-C12-CUSUM", 2, "two extrema")
@@ -956,6 +956,90 @@ def rule_formula(ctx):
     ap = sym.mk("idx", ph[0], mm) - sym.mk("idx", ph[0], mm + 1)
     chi = n * 2 * (sym.mk("math.log", _c(2)) - ap)
     cmp_terms(ctx, R, f.where, "p = igamc(2^(m-1), n (ln 2 - ApEn(m)))", pv, igamc(sym.mk("pow", _c(2), mm - 1), _td(chi, _c(2))), "2.12.4")
+  # ---- ComputeApproximateEntropy: phi = sum over the non-zero counts of (c / n) ln(c / n), n = sum of the counts
+  f = repo.func(MOD, "ComputeApproximateEntropy")
+  w = sym.Walker(repo, f)
+  w.run()
+  fr = P("param", f.params()[0])
+  probs = []
+  loops = [li for li in w.loop_info.values() if li["visits"] and isinstance(li["visits"][0]["iter"], Poly) and li["visits"][0]["iter"] == fr]
+  rets = [t_ for t_ in w.terminals if t_[0] == "return"]
+  if len(loops) != 1 or not rets:
+    ctx.record(R, f.where, "phi = sum (c/n) ln(c/n) over non-zero counts", None, "expected one loop over the counts")
+  else:
+    li = loops[0]
+    vis = li["visits"][0]
+    c_ = sym.mk("idx", fr, as_poly(vis["k"]))
+    tot = sym.mk("sum", fr)
+    term = _td(c_, tot) * sym.mk("math.log", _td(c_, tot))
+    acc = [n_ for n_, v_ in (vis.get("after_env") or {}).items() if isinstance(v_, Poly) and all(isinstance(t_[1], Poly) and t_[1] == v_ for t_ in rets)]
+    if not acc:
+      probs.append("the value returned is not the accumulated sum")
+    else:
+      a0 = vis["pre_env"].get(acc[0])
+      if not (isinstance(a0, Const) and a0.v == 0 or isinstance(a0, Poly) and a0.is_zero()):
+        probs.append("the sum does not start at 0")
+      hv = vis["head"].env.get(acc[0])
+      for kind, val, st_, since, v_ in li["body_paths"]:
+        if v_ is not vis:
+          continue
+        if kind not in ("fall", "continue"):
+          probs.append("the loop over the counts is left early")
+          continue
+        newf = st_.facts[len(vis["head"].facts):]
+        nz = any(fc[0] == "truthy" and isinstance(fc[1], Poly) and fc[1] == c_ for fc in newf) or any(fc[0] == "cmp" and fc[1] in ("NotEq", "Gt") and isinstance(fc[2], Poly) and fc[2] == c_ and as_poly(fc[3]).is_zero() for fc in newf)
+        zero = any(fc[0] == "falsy" and isinstance(fc[1], Poly) and fc[1] == c_ for fc in newf) or any(fc[0] == "cmp" and fc[1] in ("Eq", "LtE") and isinstance(fc[2], Poly) and fc[2] == c_ and as_poly(fc[3]).is_zero() for fc in newf)
+        delta = as_poly(st_.env.get(acc[0])) - as_poly(hv) if isinstance(st_.env.get(acc[0]), Poly) and isinstance(hv, Poly) else None
+        if delta is None:
+          probs.append("accumulator not tracked")
+        elif zero:
+          if not delta.is_zero():
+            probs.append("a zero count contributes to the sum")
+        else:
+          okt, d_ = ratfun.equal_terms(delta, term)
+          if not okt:
+            probs.append("a count contributes %r, not (c/n) ln(c/n)" % (delta,))
+          if not nz:
+            probs.append("ln(c/n) is taken without excluding c = 0")
+    ctx.record(R, f.where, "phi = sum (c/n) ln(c/n) over non-zero counts", not probs, "; ".join(sorted(set(probs))) or "2.12.4 (3)-(4): n = sum of the counts, zero counts skipped")
+  # ---- NormalCdf
+  f = repo.func("randomness_tests.util", "NormalCdf")
+  w = sym.Walker(repo, f)
+  w.run()
+  x_, mu_, var_ = (P("param", p_) for p_ in f.params()[:3])
+  ret = [e.data["value"] for e in w.events if e.kind == "return" and e.node is not None]
+  want = _td(sym.mk("math.erf", _td(x_ - mu_, sqrt(var_ * 2))) + 1, _c(2))
+  cmp_terms(ctx, R, f.where, "Phi((x - mean) / sd) = (1 + erf((x - mean) / sqrt(2 variance))) / 2", as_poly(ret[0]) if len(ret) == 1 else None, want, "5.5.3")
+  # ---- Spectral
+  f = repo.func(MOD, "Spectral")
+  w = sym.Walker(repo, f)
+  w.run()
+  ret = [e.data["value"] for e in w.events if e.kind == "return" and e.node is not None]
+  probs = []
+  if len(ret) != 1 or not isinstance(ret[0], Poly):
+    ctx.record(R, f.where, "p = erfc(|N1 - N0| / sqrt(n 0.95 0.05 / 4) / sqrt 2)", None, "expected one return value")
+  else:
+    pv = ret[0]
+    cnt = [a_ for a_ in pv.all_atoms() if a_.kind == "extcall" and "count_nonzero" in repr(a_.args[0])]
+    if len(cnt) != 1:
+      probs.append("the number of peaks below the threshold is not numpy.count_nonzero(moduli < T)")
+    else:
+      N1 = Poly.atom(cnt[0])
+      txt = repr(cnt[0].args[1]) if len(cnt[0].args) > 1 else ""
+      dft = sym.mk("slice", _call(U + "Dft", _call(U + "Bits", bits, n)), _lit("None"), sym.mk("fdiv", n, _c(2)), _lit("None"))
+      T = sqrt(sym.mk("math.log", _td(_c(1), _fl("0.05"))) * n)
+      if not (("'Lt'" in txt or "'LtE'" in txt) and repr(dft) in txt and repr(T) in txt and txt.index(repr(dft)) < txt.index(repr(T))):
+        probs.append("the peaks counted are not the first n/2 moduli below T = sqrt(ln(1/0.05) n)")
+      N0 = sym.mk("len", dft) * _fl("0.95")
+      want = erfc(_td(sym.mk("abs", _td(N0 - N1, sqrt(_td(n * _fl("0.95") * _fl("0.05"), _c(4))))), sqrt(_c(2))))
+      okt, d_ = ratfun.equal_terms(pv, want)
+      if not okt:
+        N0b = _td(n, _c(2)) * _fl("0.95")
+        want2 = erfc(_td(sym.mk("abs", _td(N0b - N1, sqrt(_td(n * _fl("0.95") * _fl("0.05"), _c(4))))), sqrt(_c(2))))
+        okt, d_ = ratfun.equal_terms(pv, want2)
+      if not okt:
+        probs.append("differs from d = (N1 - 0.95 n/2) / sqrt(n 0.95 0.05 / 4), p = erfc(|d| / sqrt 2): %s" % d_)
+    ctx.record(R, f.where, "p = erfc(|N1 - N0| / sqrt(n 0.95 0.05 / 4) / sqrt 2)", not probs, "; ".join(sorted(set(probs))) or "2.6.4: T = sqrt(ln(1/0.05) n), N0 = 0.95 n/2, N1 = #{moduli < T}")
   # ---- CumulativeSumsPValue
   f = repo.func(MOD, "CumulativeSumsPValue")
   w = sym.Walker(repo, f)
